@@ -449,14 +449,20 @@ impl GarnishNumber for SimpleNumber {
 
     fn bitwise_shift_left(self, rhs: Self) -> Option<Self> {
         Some(match (self, rhs) {
-            (Integer(v1), Integer(v2)) => Integer(v1 << v2),
+            (Integer(v1), Integer(v2)) => match u32::try_from(v2).ok().and_then(|c| v1.checked_shl(c)) {
+                Some(v) => Integer(v),
+                None => return None,
+            },
             _ => return None,
         })
     }
 
     fn bitwise_shift_right(self, rhs: Self) -> Option<Self> {
         Some(match (self, rhs) {
-            (Integer(v1), Integer(v2)) => Integer(v1 >> v2),
+            (Integer(v1), Integer(v2)) => match u32::try_from(v2).ok().and_then(|c| v1.checked_shr(c)) {
+                Some(v) => Integer(v),
+                None => return None,
+            },
             _ => return None,
         })
     }
